@@ -27,11 +27,20 @@ pub struct EncJob {
     /// between (a source refilled in place, e.g. `Take` with a new limit); every segment must come out as its own frame
     #[serde(default)]
     pub cuts_pm: Vec<u16>,
+    /// 0 = the reusable compressor object of the run; 1 = the one-shot `encoding::compress(source, drain, level)`;
+    /// 2 = `encoding::compress_to_vec(source, level)` (both build their own compressor; ignored with cut points)
+    #[serde(default)]
+    pub api: u8,
 }
 
 #[derive(Clone, Debug, Serialize, Deserialize)]
 pub struct C02Plan {
     pub jobs: Vec<EncJob>,
+    /// None = the production match finder (one slice of 128 KiB); Some((slice, n)) = the built-in match finder built
+    /// through the hook constructor with `n` slices of `slice` bytes (blocks of `slice` bytes, window slice * n):
+    /// eviction, buffer recycling and cross-block offsets are reached after a few KiB instead of a few hundred
+    #[serde(default)]
+    pub matcher: Option<(u32, u32)>,
 }
 
 pub struct C02;
@@ -50,16 +59,41 @@ pub struct Produced {
 }
 
 /// run the jobs through one reused compressor
-pub fn run_jobs(jobs: &[EncJob]) -> Vec<Produced> {
+pub fn run_jobs(jobs: &[EncJob], matcher: Option<(u32, u32)>) -> Vec<Produced> {
     let inputs: Vec<Vec<u8>> = jobs.iter().map(|j| j.content.generate()).collect();
     let mut out = Vec::new();
-    let mut comp: FrameCompressor<SimReader<'_>, SimSink, MatchGeneratorDriver> = FrameCompressor::new(CompressionLevel::Fastest);
+    let new_comp = || -> FrameCompressor<SimReader<'_>, SimSink, MatchGeneratorDriver> {
+        match matcher {
+            Some((slice, n)) => FrameCompressor::new_with_matcher(MatchGeneratorDriver::verif_new((slice as usize).max(8), (n as usize).max(1)), CompressionLevel::Fastest),
+            None => FrameCompressor::new(CompressionLevel::Fastest),
+        }
+    };
+    let mut comp = new_comp();
     let mut broken = false;
     for (j, input) in jobs.iter().zip(inputs.iter()) {
         if broken {
             // after a panic the compressor object is in an unknown state: start a new one
-            comp = FrameCompressor::new(CompressionLevel::Fastest);
+            comp = new_comp();
             broken = false;
+        }
+        if j.api != 0 && j.cuts_pm.is_empty() {
+            // the convenience functions: a compressor of their own per call
+            let script = SourceScript { chunks: j.chunks.clone(), eof_at: None, faults: vec![], pauses: vec![] };
+            let sink_script = SinkScript { steps: if j.drain_piece == 0 { vec![] } else { vec![SinkStep::AtMost(j.drain_piece)] }, piece: 0, budget: None };
+            let level = if j.fastest { CompressionLevel::Fastest } else { CompressionLevel::Uncompressed };
+            let mut partial = 0;
+            let r = crate::driver::guarded(|| {
+                if j.api == 1 {
+                    let mut sink = SimSink::new(&sink_script);
+                    ruzstd::encoding::compress(SimReader::new(input, &script), &mut sink, level);
+                    partial = sink.stats.partial;
+                    sink.accepted
+                } else {
+                    ruzstd::encoding::compress_to_vec(SimReader::new(input, &script), level)
+                }
+            });
+            out.push(Produced { input: input.clone(), output: r, short_reads: 0, partial_writes: partial, job: out_job_index(jobs, j) });
+            continue;
         }
         // segment boundaries inside this job's content
         let mut cuts: Vec<usize> = j.cuts_pm.iter().map(|c| (input.len() as u64 * (*c).min(1000) as u64 / 1000) as usize).collect();
@@ -167,8 +201,8 @@ pub fn tunable_block(seed: u64, k: usize, n: usize) -> Content {
 
 /// compress [blk, blk]: (kind of block 0, kind of block 1, literals type of block 0, literals type of block 1)
 fn probe_pair(blk: &Content) -> (Option<BlockKind>, Option<BlockKind>, Option<u8>, Option<u8>) {
-    let job = EncJob { content: Content::Concat(vec![blk.clone(), blk.clone()]), fastest: true, chunks: vec![], drain_piece: 0, cuts_pm: vec![] };
-    let p = run_jobs(std::slice::from_ref(&job));
+    let job = EncJob { content: Content::Concat(vec![blk.clone(), blk.clone()]), fastest: true, chunks: vec![], drain_piece: 0, cuts_pm: vec![], api: 0 };
+    let p = run_jobs(std::slice::from_ref(&job), None);
     let Some(Ok(out)) = p.first().map(|x| x.output.as_ref()) else { return (None, None, None, None) };
     let Ok(info) = walker::walk(out) else { return (None, None, None, None) };
     let k0 = info.blocks.first().map(|b| b.kind);
@@ -248,7 +282,25 @@ pub fn tiled_unit_content(r: &mut Rng) -> Content {
 }
 
 fn gen_job(r: &mut Rng, max_len: usize) -> EncJob {
-    let content = match r.below(10) {
+    let content = match r.below(11) {
+        10 => {
+            // consecutive blocks over alphabets of the same size and shape whose members are shifted by one (table reuse
+            // meets a byte value the remembered table has no code for, below or above its range)
+            let n = *r.pick(&[2u16, 8, 16, 16, 17, 32, 100, 255]);
+            let lo = *r.pick(&[0u8, 1, b'a', 100, 200]);
+            let first = *r.pick(&[B, B, 2 * B, 40_000]);
+            let mut parts = vec![Content::Range { lo, n, len: first, seed: r.next_u64() }];
+            for _ in 0..r.urange(1, 3) {
+                let (lo2, n2) = match r.below(4) {
+                    0 => (lo.wrapping_add(1), n),
+                    1 => (lo.wrapping_sub(1), n),
+                    2 => (lo, n + 1),
+                    _ => (lo.wrapping_add(r.below(4) as u8), n),
+                };
+                parts.push(Content::Range { lo: lo2, n: n2, len: *r.pick(&[1025usize, 2_000, 8_192, 40_000, B]), seed: r.next_u64() });
+            }
+            Content::Concat(parts)
+        }
         0 => {
             // multi-block inputs whose blocks alternate compressible / incompressible
             let n = r.urange(2, 4);
@@ -299,6 +351,7 @@ fn gen_job(r: &mut Rng, max_len: usize) -> EncJob {
         },
         drain_piece: *r.pick(&[0u32, 0, 1, 3, 100, 4096, 131075]),
         cuts_pm: if r.chance(1, 6) { (0..r.urange(1, 3)).map(|_| r.below(1001) as u16).collect() } else { vec![] },
+        api: *r.pick(&[0u8, 0, 0, 0, 0, 0, 1, 2]),
     }
 }
 
@@ -311,7 +364,7 @@ pub fn gen_jobs(r: &mut Rng, tier: Tier, index: u64) -> Vec<EncJob> {
     if index % hunt_every == 3 {
         let blk = hunt_boundary_block(r, 60);
         let tail = gen_len(r, 2000);
-        return vec![EncJob { content: Content::Concat(vec![blk.clone(), blk, Content::Markov { len: tail, seed: 5 }]), fastest: true, chunks: vec![], drain_piece: 0, cuts_pm: vec![] }];
+        return vec![EncJob { content: Content::Concat(vec![blk.clone(), blk, Content::Markov { len: tail, seed: 5 }]), fastest: true, chunks: vec![], drain_piece: 0, cuts_pm: vec![], api: 0 }];
     }
     let n = r.urange(1, 6);
     let max_len = if r.chance(1, 6) { 3 * B + 10 } else { 40_000 };
@@ -324,8 +377,11 @@ pub fn gen_jobs(r: &mut Rng, tier: Tier, index: u64) -> Vec<EncJob> {
     jobs
 }
 
-pub fn exec_jobs(id: &str, jobs: &[EncJob], stats: &mut Stats, log: Option<&mut Vec<Value>>, trailer_only: bool) -> RunOutcome {
-    let produced = run_jobs(jobs);
+pub fn exec_jobs(id: &str, jobs: &[EncJob], matcher: Option<(u32, u32)>, stats: &mut Stats, log: Option<&mut Vec<Value>>, trailer_only: bool) -> RunOutcome {
+    let produced = run_jobs(jobs, matcher);
+    if matcher.is_some() {
+        stats.inc("probe.built_in_matcher_with_scaled_down_window");
+    }
     let mut v = None;
     let mut d = Digest::new();
     let mut bytes = 0u64;
@@ -342,6 +398,9 @@ pub fn exec_jobs(id: &str, jobs: &[EncJob], stats: &mut Stats, log: Option<&mut 
             stats.inc("probe.frame_from_source_refilled_in_place");
         }
         stats.inc(if job.fastest { "level.fastest" } else { "level.uncompressed" });
+        if job.api != 0 && job.cuts_pm.is_empty() {
+            stats.inc(if job.api == 1 { "api.compress_one_shot" } else { "api.compress_to_vec" });
+        }
         if p.input.is_empty() {
             stats.inc("probe.empty_input");
         }
@@ -442,13 +501,20 @@ impl Engine for C02 {
     }
     fn gen(&self, seed: u64, index: u64, tier: Tier) -> C02Plan {
         let mut r = Rng::new(seed);
-        C02Plan { jobs: gen_jobs(&mut r, tier, index) }
+        let jobs = gen_jobs(&mut r, tier, index);
+        // window = slice * n is a power of two between 1 KiB and 512 KiB (exactly representable in the frame header)
+        let matcher = if r.chance(1, 5) { Some((*r.pick(&[1024u32, 1024, 4096, 16384, 65536]), *r.pick(&[1u32, 2, 2, 4, 8]))) } else { None };
+        C02Plan { jobs, matcher }
     }
     fn exec(&self, plan: &C02Plan, stats: &mut Stats, log: Option<&mut Vec<Value>>) -> Result<RunOutcome, HarnessError> {
-        Ok(exec_jobs("C02", &plan.jobs, stats, log, false))
+        Ok(exec_jobs("C02", &plan.jobs, plan.matcher, stats, log, false))
     }
     fn shrink(&self, plan: &C02Plan) -> Vec<C02Plan> {
-        shrink_jobs(&plan.jobs).into_iter().map(|jobs| C02Plan { jobs }).collect()
+        let mut out: Vec<C02Plan> = shrink_jobs(&plan.jobs).into_iter().map(|jobs| C02Plan { jobs, matcher: plan.matcher }).collect();
+        if plan.matcher.is_some() {
+            out.push(C02Plan { jobs: plan.jobs.clone(), matcher: None });
+        }
+        out
     }
     fn rule(&self) -> String {
         "one run = 1-6 frames pushed through one reused FrameCompressor (built-in matcher): per frame a seeded input (lengths biased to 0, 1, 2, the literal size-format thresholds, 128 KiB - 1 / \
@@ -477,6 +543,9 @@ impl Engine for C02 {
             "fault.drain_short_write",
             "probe.frame_from_reused_compressor",
             "probe.frame_from_source_refilled_in_place",
+            "api.compress_one_shot",
+            "api.compress_to_vec",
+            "probe.built_in_matcher_with_scaled_down_window",
             "probe.empty_input",
             "probe.input_multiple_of_block_size",
             "level.fastest",
